@@ -362,10 +362,8 @@ Section Selection.
 
   Definition destinations (ls : list link) : list link := List.filter admits ls.
 
-  (* `pick` stands for rand.Intn; any function works *)
+  (* `pick` stands for rand.Intn; any function works.  None = the add is
+     failed back (len(destinations) == 0). *)
   Definition choose (pick : nat -> nat) (ls : list link) : option link :=
-    match destinations ls with
-    | nil => None
-    | cons d ds => List.nth_error (cons d ds) (pick (length (cons d ds)))
-    end.
+    List.nth_error (destinations ls) (pick (length (destinations ls))).
 End Selection.
